@@ -598,7 +598,7 @@ func init() {
 		},
 		Run:           c13Run,
 		MinNontrivial: 300,
-		Rule: "case k: reading mode = {normal, as-defaults}[k mod 2], naming form = {ini-name in random case, field name, namespaced long name, short name}[k/2 mod 4], crossing pattern = {none, A's ini-name = B's field name, A's field name = B's long name, A's one-letter long name = B's short name}[k/8 mod 4]; a random declaration (nested namespaced groups, commands to depth 2 incl. Commander nodes with AddGroup'ed groups, non-ASCII short names), a section chosen among {preamble, group description in random case, dotted command path, command path + group description} and 1-3 entries (bare transparent values or Go string literals; flag forms true / empty / false). " +
+		Rule: "1 case in 8: two identical parsers built through the API only (1-3 options registered with AddOption, possibly two that share a long name and differ by the namespace of their group): --name=V occurrences on one, the corresponding entries (effective long name or short name; normal and as-defaults mode) on the other, all variables compared. case k: reading mode = {normal, as-defaults}[k mod 2], naming form = {ini-name in random case, field name, namespaced long name, short name}[k/2 mod 4], crossing pattern = {none, A's ini-name = B's field name, A's field name = B's long name, A's one-letter long name = B's short name}[k/8 mod 4]; a random declaration (nested namespaced groups, commands to depth 2 incl. Commander nodes with AddGroup'ed groups, non-ASCII short names), a section chosen among {preamble, group description in random case, dotted command path, command path + group description} and 1-3 entries (bare transparent values or Go string literals; flag forms true / empty / false). " +
 			"Oracle (metamorphic + priority resolver): IniParser.Parse followed by ParseArgs(command path) on one fresh parser versus ParseArgs(command path + --flag=value per entry) on another, where the flag is that of the option the name should resolve to by the stated priority: equal value snapshots, equal call logs, equal error-ness. distinct = (mode, form, crossing, type, #entries, quoted, depth).",
 		Assumptions: []string{"`flag = false` has no command-line counterpart: only 'stores false' is asserted", "same-priority ties are not generated", "options with unquote:\"false\" get bare values only"},
 		Technique:   "runtime metamorphic monitor: INI run versus equivalent-flags run on two fresh parsers, with an independent name-priority resolver choosing the denoted option; multi-step histories on one parser with direct oracles",
